@@ -175,4 +175,39 @@ theorem sortW_eq_of_perm {ws ws' : List Workload} (hp : ws.Perm ws') (hn : (ws.m
   have := Key.lt_asymm h1
   rw [h2] at this; cases this
 
+/-! ### reference predicates (specification side of C18/C19) -/
+
+/-- Kubernetes semantics of one `matchExpressions` entry -/
+def LSReq.holds (e : LSReq) (ls : List (String × String)) : Bool :=
+  match e.op with
+  | .in_ => match AL.lookup e.key ls with | some v => e.vals.contains v | none => false
+  | .notIn => match AL.lookup e.key ls with | some v => !e.vals.contains v | none => true
+  | .exists_ => (AL.lookup e.key ls).isSome
+  | .doesNotExist => (AL.lookup e.key ls).isNone
+  | _ => false
+
+/-- the four operators a metav1.LabelSelector may carry -/
+def LSReq.valid (e : LSReq) : Bool :=
+  match e.op with
+  | .in_ | .notIn | .exists_ | .doesNotExist => true
+  | _ => false
+
+/-- `m ⊆ labels` -/
+def subsetLabels (m ls : List (String × String)) : Bool := m.all (fun kv => AL.lookup kv.1 ls == some kv.2)
+
+/-- Kubernetes semantics of a LabelSelector -/
+def LabelSelector.holds (s : LabelSelector) (ls : List (String × String)) : Bool :=
+  subsetLabels s.matchLabels ls && s.matchExpressions.all (·.holds ls)
+
+/-- the per-workload selection rule: selector if present, template labels otherwise -/
+def Workload.selects (w : Workload) (ls : List (String × String)) : Bool :=
+  match w.selector with
+  | some s => s.holds ls
+  | none => subsetLabels w.labels ls
+
+def Workload.valid (w : Workload) : Bool :=
+  match w.selector with
+  | some s => s.matchExpressions.all (·.valid)
+  | none => true
+
 end KC
